@@ -419,6 +419,16 @@ def corrupt(side, kind, xid, fault, param=0):
     g[2:4] = rb.struct.pack("!H", v & 0xffff)
   if fault in ("OK", "HANDLER_RAISES"):
     return bytes(g), n, True
+  if fault == "MUTATED":              # param seeds 1-3 random byte changes of a valid message
+    import random
+    r = random.Random(param * 7919 + n)
+    for _ in range(1 + r.randrange(3)):
+      g[r.randrange(n)] = r.randrange(256)
+    return bytes(g), n, False
+  if fault == "RANDOM":               # param seeds a fully random byte string
+    import random
+    r = random.Random(param * 104729 + 3)
+    return bytes(r.randrange(256) for _ in range(1 + r.randrange(80))), n, False
   if fault == "BAD_VERSION":
     g[0] = (0x04, 0x00, 0xff, 0x02)[param % 4]
     return bytes(g), n, True
